@@ -19,7 +19,11 @@ from .run import CaseResult, Violation
 
 SYSTEM = {"\\Seen", "\\Answered", "\\Flagged", "\\Deleted", "\\Draft"}
 MBOXES = ["inbox", "mb", "other"]  # index space of mailbox choices
+# (the last four are pieces of system-flag names: seeded/C04-5 dropped keywords that are substrings of `\\Recent`)
 KEYWORDS = ["kw1", "kw2", "$Fwd", "work.later", "a-b+c", "x&y", "it's", "hey!"]
+# pieces of system-flag names (seeded/C04-5 dropped keywords that are substrings of `\\Recent`); used by traces with
+# "kwx": true, so that the indices of older replay files keep their meaning
+KEYWORDS_X = ["e", "Re", "cent", "een"]
 ALIAS_KEYWORDS = ["Seen", "replied", "flagged", "Deleted", "Draft", "Recent", "unseen"]
 ODD_KEYWORDS = ["a:b", "k:", "$MDN:sent"]
 DATES = ['"01-Jan-2020 10:00:00 +0000"', '" 5-Mar-2021 23:59:59 -0800"', '"17-Jul-2019 00:00:01 +0530"', '"31-Dec-2022 12:00:00 +0000"']
@@ -529,6 +533,8 @@ class Runner(History):
         pool = ["\\Seen", "\\Answered", "\\Flagged", "\\Deleted", "\\Draft"] + KEYWORDS
         if allow_alias:
             pool = pool + ALIAS_KEYWORDS + ODD_KEYWORDS
+        if self.trace.get("kwx"):
+            pool = pool + KEYWORDS_X
         fl = []
         for i in s.get("flags", []):
             f = pool[i % len(pool)]
@@ -726,9 +732,9 @@ class Runner(History):
         # (the PEEK forms with a partial, RFC822.HEADER and two attributes in one FETCH were added after seeded/C04-4:
         #  a parser branch that drops `peek` for BODY.PEEK[..]<o.n>)
         WHATS = ["(UID FLAGS)", "(UID BODY.PEEK[HEADER.FIELDS (X-VF-Tag)])", "(UID BODY[HEADER.FIELDS (X-VF-Tag)])", "(UID FLAGS BODY[TEXT])", "(UID RFC822.SIZE)", "(UID BODY.PEEK[])",
-                 "(UID BODY.PEEK[TEXT]<0.8>)", "(UID BODY.PEEK[]<0.2048>)", "(UID RFC822.HEADER)", "(UID BODY.PEEK[HEADER]<3.5> FLAGS)", "(UID BODY[]<0.10>)", "(UID RFC822.TEXT)"]
+                 "(UID BODY.PEEK[TEXT]<0.8>)", "(UID BODY.PEEK[]<0.2048>)", "(UID RFC822.HEADER)", "(UID BODY.PEEK[HEADER]<3.5> FLAGS)", "(UID BODY[]<0.10>)", "(UID RFC822.TEXT)", "(UID RFC822)"]
         what = WHATS[s.get("what", 0) % len(WHATS)]
-        nonpeek = "BODY[" in what.replace("BODY.PEEK[", "") or "RFC822.TEXT" in what
+        nonpeek = "BODY[" in what.replace("BODY.PEEK[", "") or "RFC822.TEXT" in what or "RFC822)" in what
         targets = self.addressed(st, den, uid_mode)
         ambiguous = targets is None
         targets = targets or []
